@@ -96,6 +96,12 @@ CLAIMED["C09"] = dict(
    technique="symbolic execution of serialiser, decoder and VM + SMT; relational original-vs-restored harness",
    ref="DESIGN.md §5 C09")
 
+CLAIMED["C11"] = dict(
+   text="Decided as non-interference, not by exploring schedules: 15 API entry-point scenarios (each NewVM + Run + every observer + JSON snapshot on a fresh VM, covering syntax errors in two languages, seeded and unseeded dice, bound methods, functions, computed values, templates, dict methods, builtins, random array methods, st, default-sides dice, run-time errors) are executed symbolically with every memory cell reachable from a package-level variable of dicescript and x/exp/rand marked; any plain (unlocked, non-atomic) store to a marked cell on any explored path is a finding. W = {} implies that VMs sharing no values can only meet on immutable data, hence no data race and isolated results. Each finding is confirmed natively by running the scenario on two goroutines under go test -race.",
+   note="Sufficient, not necessary (a benign shared write would be reported). Interleavings are not explored; atomics and stores under a mutex are treated as synchronised. The generator stub records state writes of PCGSource. Known findings recorded: parseErrorLanguage is process-global (also the root of C19's cross-VM language leak), unseeded VMs share randSource.",
+   technique="symbolic execution with shared-memory footprint tracking; race detector only as replay confirmation",
+   ref="DESIGN.md §5 C11")
+
 NA = {
 }
 
